@@ -99,6 +99,14 @@ impl NodeCfg {
             dhcp_leased_unapplied: vec![],
             dhcp_unmanaged: false,
             slaac_iid: None,
+            hw_addr: match self.medium {
+                Medium::Ip => vec![],
+                Medium::Ethernet => self.mac.to_vec(),
+                Medium::Ieee802154 => match self.ll2 {
+                    Some(s) => s.to_vec(),
+                    None => self.ll8.to_vec(),
+                },
+            },
         }
     }
     pub fn rx_verifies_all(&self) -> bool {
